@@ -11,7 +11,7 @@ TABLES = []
 LAKE_TARGETS = ["Moclo.Props.C18"]
 THEOREMS = ["Moclo.C18." + t for t in ["letter_case", "typing_case", "overhangs_case", "upper_is_respelling", "assembly_case", "product_upper_eq"]]
 # reductions under which a failing case stays a case of this property (see shrink.py)
-SHRINK = {"strings": True}
+SHRINK = {"lists": ["spellings"], "keep_one": ["spellings", "mods"]}
 RULE = ("typing queries (generic classes over every geometry and every kit class) and assemblies (well-formed and "
         "failing: missing module, duplicates, unused) re-spelt all-lower, all-upper, per-record and per-letter "
         "random case; verdict, overhangs and target compared case-insensitively with the all-upper-case run, "
@@ -19,7 +19,7 @@ RULE = ("typing queries (generic classes over every geometry and every kit class
         "record is accepted / the assembly has at least one module; distinct by content")
 ASSUMPTIONS = []
 
-MODES = ["lower", "upper", "mixed", "mixed"]
+MODES = ["lower", "upper", "mixed", "mixed", "regional", "regional", "regional"]
 
 
 def up(x):
@@ -76,6 +76,15 @@ def run(ctx):
         wd = gen.rot(wd, rng.randrange(len(wd)))
         ctx.guard(check_typing, {"cls": "generic:{}:{}".format(kind, enz), "word": wd,
                            "spellings": [gen.recase(rng, wd, m) for m in MODES]})
+    # records the classes refuse in upper case (a third site inside the structure): refused in every spelling, in
+    # particular when only part of the record is soft-masked
+    for cls in boot.kit_classes():
+        if ctx.tier == "quick" and rng.random() < 0.5:
+            continue
+        wd = T.inner_site_instance(rng, cls, lower="upper")
+        wd = gen.rot(wd, rng.randrange(len(wd)))
+        ctx.guard(check_typing, {"cls": asm.cls_name(cls), "word": wd,
+                           "spellings": [gen.recase(rng, wd, "regional") for _ in range(8)] + [wd.lower()]})
     per = ctx.budget(2, 40)
     for cls in boot.kit_classes():
         for _ in range(per):
